@@ -933,7 +933,8 @@ func (s *State) evalForInteger(fe *ast.ForExpression, start *int64, end int64, n
 		}
 		ptr = register.Ptr()
 	}
-	for i := startValue; i < endValue; i++ {
+	var result object.Object // set when leaving the loop early.
+	for i := startValue; i < endValue && result == nil; i++ {
 		if ptr == nil && name != "" {
 			s.env.Set(name, object.Integer{Value: int64(i)})
 		}
@@ -943,25 +944,29 @@ func (s *State) evalForInteger(fe *ast.ForExpression, start *int64, end int64, n
 		nextEval := s.evalInternal(newBody)
 		switch nextEval.Type() {
 		case object.ERROR:
-			return nextEval
+			result = nextEval
 		case object.RETURN:
 			r := nextEval.(object.ReturnValue)
 			switch r.ControlType {
 			case token.BREAK:
-				return lastEval
+				result = lastEval
 			case token.CONTINUE:
 				continue
 			case token.RETURN:
-				return r
+				result = r
 			default:
-				return s.Errorf("for loop unexpected control type %s", r.ControlType.String())
+				result = s.Errorf("for loop unexpected control type %s", r.ControlType.String())
 			}
 		default:
 			lastEval = nextEval
 		}
 	}
+	// Release on every way out of the loop (break, return, error included).
 	if ptr != nil {
 		s.env.ReleaseRegister(register)
+	}
+	if result != nil {
+		return result
 	}
 	return lastEval
 }
